@@ -359,6 +359,7 @@ m('emuflag-reduce','C12',['EMU-FLAG'],'std/math/emulated/field_reduce.go','''	//
 	res := f.mulMod(a, f.One(), 0, nil)
 	res.modReduced = strict
 	return res''',note='strict reduction marks the hinted remainder as reduced without comparing it with the modulus')
+m('copynoop-gkr-hintins','C19',['COPY-NOOP'],'std/gkr/compile.go','''	hintIns := make([]frontend.Variable, len(initialChallenges)+1) // hack''','''	hintIns := make([]frontend.Variable, 1, len(initialChallenges)+1) // hack''',note='buffer made with length 1 (capacity len+1): copy(hintIns[1:], initialChallenges) moves nothing')
 json.dump({'comment':'selftest mutants: each patch breaks one rule instance and must be detected by the listed rule(s) of its property; produced by tools/make_selftest.py','mutants':M}, open(os.path.join(root,'selftest','mutants.json'),'w'), indent=1)
 subprocess.run(['git','-C','/repo','worktree','remove','--force',WT],capture_output=True)
 print(len(M),'mutants')
